@@ -58,11 +58,40 @@ type c03Cfg struct {
 	SyncFreq    time.Duration // 0: default
 	IdxNodeSize int           // 0: default
 	BreakSync   string        // self-test: Sync() of this file degrades to Flush() during the workload
+	Sched       *c03Sched     // scheduled workload: late committers are started from a storage op of a durability round
+	AckOnly     bool          // crash images only right after every acknowledgement (+ end of the log); the trace oracles run in full
+}
+
+// c03Sched: interleaving control through the storage layer.  When the store (its syncer, inside sync()) is about to perform
+// (Pre) / has just performed (!Pre) the op Kind on File, Late fresh committers are started and the op does not return before
+// each of them has either precommitted its tx (tx record appended) or stopped making progress (blocked on a lock of the store).
+type c03Sched struct {
+	File   string
+	Kind   crashfs.Kind
+	Pre    bool
+	Late   int
+	Prime  int // sequential commits before the first armed round (rotates the list of unlocked value logs)
+	Rounds int // armed commits
+}
+
+func (sc *c03Sched) String() string {
+	if sc == nil {
+		return "-"
+	}
+	ph := "after"
+	if sc.Pre {
+		ph = "before"
+	}
+	return fmt.Sprintf("%d-late-committers-%s-%s-of-%s(prime=%d,rounds=%d)", sc.Late, ph, sc.Kind, sc.File, sc.Prime, sc.Rounds)
 }
 
 func (c c03Cfg) String() string {
-	return fmt.Sprintf("%s{emb=%v fsz=%d wbuf=%d maxActive=%d ahtSync=%d idxFlush=%d/%d ioc=%d allowance=%v committers=%d ntx=%d v%d discard=%v}",
-		c.Name, c.Embedded, c.FileSize, c.WriteBuf, c.MaxActive, c.AhtSyncThld, c.IdxFlush, c.IdxSync, c.IOConc, c.Allowance, c.Committers, c.NTx, c.HdrVersion, c.Discard)
+	sched := ""
+	if c.Sched != nil {
+		sched = " sched=" + c.Sched.String()
+	}
+	return fmt.Sprintf("%s{emb=%v fsz=%d wbuf=%d maxActive=%d ahtSync=%d idxFlush=%d/%d ioc=%d allowance=%v committers=%d ntx=%d v%d discard=%v%s}",
+		c.Name, c.Embedded, c.FileSize, c.WriteBuf, c.MaxActive, c.AhtSyncThld, c.IdxFlush, c.IdxSync, c.IOConc, c.Allowance, c.Committers, c.NTx, c.HdrVersion, c.Discard, sched)
 }
 
 var c03Clock int64
@@ -174,7 +203,16 @@ func c03Workload(r *hx.Result, rng *hx.Rng, cfg c03Cfg, base *crashfs.Image, inh
 	ctx, cancel := context.WithCancel(context.Background())
 	defer cancel()
 
+	var onCommitCall func() // scheduled workloads: invoked right before Commit/AsyncCommit is called
 	commitOne := func(rg *hx.Rng, cctx context.Context) {
+		signalled := false
+		signal := func() {
+			if !signalled && onCommitCall != nil {
+				onCommitCall()
+			}
+			signalled = true
+		}
+		defer signal()
 		tx, err := st.NewWriteOnlyTx(cctx)
 		if err != nil {
 			return
@@ -207,6 +245,7 @@ func c03Workload(r *hx.Result, rng *hx.Rng, cfg c03Cfg, base *crashfs.Image, inh
 			tx.WithMetadata(md)
 		}
 		var hdr *store.TxHeader
+		signal()
 		if cfg.FixedVal == 0 && rg.Chance(30) {
 			hdr, err = tx.Commit(cctx)
 		} else {
@@ -246,7 +285,9 @@ func c03Workload(r *hx.Result, rng *hx.Rng, cfg c03Cfg, base *crashfs.Image, inh
 		mu.Unlock()
 	}
 
-	if !cfg.Allowance {
+	if cfg.Sched != nil {
+		c03Scheduled(r, rng, cfg, fs, ctx, &mu, commitOne, &onCommitCall)
+	} else if !cfg.Allowance {
 		var wg sync.WaitGroup
 		per := cfg.NTx / cfg.Committers
 		for c := 0; c < cfg.Committers; c++ {
@@ -318,7 +359,92 @@ func c03Workload(r *hx.Result, rng *hx.Rng, cfg c03Cfg, base *crashfs.Image, inh
 			run.Universe[a] = true
 		}
 	}
+	// crash-independent ordering oracle on the recorded trace (c03_order.go)
+	c03Ordering(r, run)
 	return run, nil
+}
+
+// c03Scheduled: the workload of a c03Sched configuration.  Every armed round: one commit is issued; when the durability round
+// it triggers reaches the scheduling point, Late more committers are started from INSIDE that storage op, and the op waits
+// until each of them has appended its tx record (it got through performPrecommit) or nothing moves any more (they are blocked
+// on a lock the round holds).  No timing assumption decides about a verdict: a committer that is slow only makes the
+// interleaving less adversarial.
+func c03Scheduled(r *hx.Result, rng *hx.Rng, cfg c03Cfg, fs *crashfs.FS, ctx context.Context, mu *sync.Mutex,
+	commitOne func(*hx.Rng, context.Context), onCommitCall *func()) {
+	sc := cfg.Sched
+	for i := 0; i < sc.Prime; i++ {
+		commitOne(rng.Fork(), ctx)
+	}
+	var armed, started int32
+	var lateWG sync.WaitGroup
+	var lateRngs []*hx.Rng
+	*onCommitCall = func() { atomic.AddInt32(&started, 1) }
+	isRecord := func(op *crashfs.Op) bool { return op.File == "tx" && op.Kind == crashfs.KAppend && op.Len >= 124 }
+	fs.SetHook(func(pre bool, file string, kind crashfs.Kind) {
+		if pre != sc.Pre || file != sc.File || kind != sc.Kind || !atomic.CompareAndSwapInt32(&armed, 1, 0) {
+			return
+		}
+		from := fs.Mark("sched-point", uint64(len(lateRngs)))
+		base := atomic.LoadInt32(&started)
+		for _, rg := range lateRngs {
+			lateWG.Add(1)
+			rg := rg
+			go func() {
+				defer lateWG.Done()
+				commitOne(rg, ctx)
+			}()
+		}
+		const quiet, limit = 12 * time.Millisecond, 400 * time.Millisecond
+		t0 := time.Now()
+		lastLen, lastMove := fs.LogLen(), t0
+		for {
+			n := 0
+			for _, op := range fs.OpsSince(from) {
+				if isRecord(&op) {
+					n++
+				}
+			}
+			now := time.Now()
+			if l := fs.LogLen(); l != lastLen {
+				lastLen, lastMove = l, now
+			}
+			allStarted := atomic.LoadInt32(&started)-base >= int32(len(lateRngs))
+			if !allStarted {
+				lastMove = now // the quiet period starts when every late committer has reached its Commit call
+			}
+			switch {
+			case n >= len(lateRngs):
+				mu.Lock()
+				r.Count("sched.late-committers-precommitted-inside-the-storage-op")
+				mu.Unlock()
+				fs.Mark("sched-resume-precommitted", uint64(n))
+				return
+			case now.Sub(lastMove) > quiet || now.Sub(t0) > limit:
+				mu.Lock()
+				r.Count(fmt.Sprintf("sched.late-committers-blocked-by-the-round.precommitted=%d/%d", n, len(lateRngs)))
+				mu.Unlock()
+				fs.Mark("sched-resume-blocked", uint64(n))
+				return
+			}
+			time.Sleep(100 * time.Microsecond)
+		}
+	})
+	for round := 0; round < sc.Rounds; round++ {
+		lateRngs = lateRngs[:0]
+		for i := 0; i < sc.Late; i++ {
+			lateRngs = append(lateRngs, rng.Fork())
+		}
+		atomic.StoreInt32(&armed, 1)
+		commitOne(rng.Fork(), ctx)
+		lateWG.Wait()
+		if atomic.CompareAndSwapInt32(&armed, 1, 0) {
+			mu.Lock()
+			r.Count("sched.point-not-reached-in-the-round")
+			mu.Unlock()
+		}
+	}
+	fs.SetHook(nil)
+	*onCommitCall = nil
 }
 
 // ---------------------------------------------------------------------------------------------
@@ -832,16 +958,33 @@ func c03Enumerate(r *hx.Result, rng *hx.Rng, run *c03Run, thorough bool, nSample
 		}
 		return m
 	}
+	// Crash points right after an acknowledgement (and the end of the log) are ALWAYS evaluated, at least with the image in
+	// which every un-fsynced write is lost: "every acknowledged tx is present with readable, byte-identical values" must
+	// not depend on the time budget, on the stride, or on the survival choices sampled at that point.
+	ackOnly := run.Cfg.AckOnly
 	for k := 0; k <= len(run.Log); k++ {
-		if time.Now().After(deadline) {
-			r.Count("enumeration.stopped-by-time-budget")
-			break
+		if !ackOnly && time.Now().After(deadline) {
+			r.Count("enumeration.stopped-by-time-budget.ack-points-continue")
+			ackOnly = true
 		}
-		if k%every == 0 || k == len(run.Log) {
+		afterAck := k > 0 && run.Log[k-1].Kind == crashfs.KMark && run.Log[k-1].Note == "ack" && acked[run.Log[k-1].Arg] != nil
+		if ackOnly && !afterAck && k != len(run.Log) {
+			// not a mandatory point
+		} else if k%every == 0 || k == len(run.Log) || afterAck {
 			stt.Points++
 			r.Count("crash.points")
+			if afterAck {
+				r.Count("crash.points.right-after-ack")
+			}
 			pend := state.Pending()
-			for _, ch := range c03Choices(rng, pend, thorough, nSample) {
+			choices := c03Choices(rng, pend, thorough, nSample)
+			if ackOnly {
+				choices = choices[:1] // none-survive
+				if k == len(run.Log) && len(pend) > 0 {
+					choices = append(choices, c03Choice{Name: "all-survive", All: true})
+				}
+			}
+			for _, ch := range choices {
 				img := state.Image(ch.Surv, ch.All)
 				stt.Images++
 				h := img.Hash()
@@ -868,7 +1011,7 @@ func c03Enumerate(r *hx.Result, rng *hx.Rng, run *c03Run, thorough bool, nSample
 					tr.image(r, run, k, img, obs)
 				}
 				// second crash DURING recovery: enumerate the recovery's own storage ops
-				if recurse > 0 && obs.OpenErr == "" && len(obs.RecLog) > 0 && (thorough || rng.Chance(recurse)) {
+				if recurse > 0 && !ackOnly && obs.OpenErr == "" && len(obs.RecLog) > 0 && (thorough || rng.Chance(recurse)) {
 					sub := &c03Run{Cfg: run.Cfg, Base: img, Log: obs.RecLog, Acked: run.Acked, Inherit: map[uint64]bool{}, Universe: run.Universe,
 						Lineage: run.Lineage + fmt.Sprintf(" -> crash@%d[%s] -> crash during recovery", k, ch.Name)}
 					for id := range acked {
@@ -880,7 +1023,7 @@ func c03Enumerate(r *hx.Result, rng *hx.Rng, run *c03Run, thorough bool, nSample
 					stt.Images += s2.Images
 				}
 				// second crash right after the recovered store acknowledged a fresh commit (only durable data survives)
-				if recurse > 0 && obs.PostAck != nil && len(obs.Failed) == 0 && (thorough || rng.Chance(4*recurse)) {
+				if recurse > 0 && !ackOnly && obs.PostAck != nil && len(obs.Failed) == 0 && (thorough || rng.Chance(4*recurse)) {
 					a2 := ackedList()
 					for _, t := range obs.AckedNew {
 						a2 = append(a2, t)
@@ -981,6 +1124,11 @@ func c03Configs(rng *hx.Rng, thorough bool) []c03Cfg {
 		mk("allowance-discard", func(c *c03Cfg) { c.Allowance = true; c.Discard = true; c.NTx = 9; c.MaxActive = 4; c.AhtSyncThld = 1 }),
 	}
 	if thorough {
+		// concurrent committers with 1..3 value logs under full enumeration
+		for ioc := 1; ioc <= 3; ioc++ {
+			ioc := ioc
+			cfgs = append(cfgs, mk(fmt.Sprintf("concurrent-4-ioc%d", ioc), func(c *c03Cfg) { c.Committers = 4; c.NTx = 12; c.IOConc = ioc; c.MaxActive = 6 }))
+		}
 		for i := 0; i < 10; i++ {
 			cfgs = append(cfgs, mk(fmt.Sprintf("random-%d", i), func(c *c03Cfg) {
 				c.Embedded = rng.Bool()
@@ -993,7 +1141,7 @@ func c03Configs(rng *hx.Rng, thorough bool) []c03Cfg {
 				c.IdxSync = c.IdxFlush * (1 + rng.Intn(3))
 				c.Committers = 1 + rng.Intn(3)
 				if !c.Embedded {
-					c.IOConc = 1 + rng.Intn(2)
+					c.IOConc = 1 + rng.Intn(3)
 				}
 				c.Allowance = rng.Chance(35)
 				c.Discard = c.Allowance && rng.Chance(40)
@@ -1003,6 +1151,44 @@ func c03Configs(rng *hx.Rng, thorough bool) []c03Cfg {
 				c.CleanClose = rng.Chance(30)
 				c.MaxVal = 20 + rng.Intn(100)
 			}))
+		}
+	}
+	return cfgs
+}
+
+// c03SchedConfigs: concurrent committers whose interleaving with the durability round is controlled through the storage layer.
+// For MaxIOConcurrency 1..3 and every log the round touches (each value log, the tx log, the commit log) the two boundaries of
+// that log's part of the round (before its Flush, after its Sync) are used as scheduling points: 1-2 late committers are
+// started there and run as far as the store lets them.  The position of the late committers' values relative to the value-log
+// fsyncs of the round varies with the point, with MaxIOConcurrency and with the rotation of the unlocked value logs (Prime).
+func c03SchedConfigs(rng *hx.Rng, thorough bool) []c03Cfg {
+	var cfgs []c03Cfg
+	for ioc := 1; ioc <= 3; ioc++ {
+		files := []string{"tx", "commit"}
+		for i := 0; i < ioc; i++ {
+			files = append(files, fmt.Sprintf("val_%d", i))
+		}
+		for _, f := range files {
+			for _, pre := range []bool{true, false} {
+				kind, ph := crashfs.KSync, "after-sync"
+				if pre {
+					kind, ph = crashfs.KFlush, "before-flush"
+				}
+				reps := 1
+				if thorough {
+					reps = 3
+				}
+				for rep := 0; rep < reps; rep++ {
+					c := c03Cfg{Name: fmt.Sprintf("sched-ioc%d-%s-%s", ioc, ph, f), FileSize: 1 << 20, WriteBuf: 4096, MaxActive: 8, AhtSyncThld: 1000, AhtWriteBuf: 4096,
+						IdxFlush: 3, IdxSync: 6, IOConc: ioc, Committers: 1, HdrVersion: 1, KeySpace: 5, MaxVal: 40, AckOnly: !(thorough && rng.Chance(15)),
+						Sched: &c03Sched{File: f, Kind: kind, Pre: pre, Late: 1 + rng.Intn(2), Prime: rng.Intn(3), Rounds: 2}}
+					if rng.Chance(25) {
+						c.WriteBuf = 128 // buffer-full auto-syncs inside the appends of the late committers
+					}
+					c.NTx = c.Sched.Prime + c.Sched.Rounds*(1+c.Sched.Late)
+					cfgs = append(cfgs, c)
+				}
+			}
 		}
 	}
 	return cfgs
@@ -1039,6 +1225,10 @@ func runC03(r *hx.Result, rng *hx.Rng, thorough bool, replay string) error {
 	if thorough {
 		nA = 600
 	}
+	only := os.Getenv("VERIF_C03_ONLY") // debugging aid: "targeted" | "sched"
+	if only == "sched" {
+		nA = 0
+	}
 	for i := 0; i < nA; i++ {
 		r.NextCase()
 		if err := c03FsDiffCase(r, rng.Fork(), 120); err != nil {
@@ -1051,7 +1241,7 @@ func runC03(r *hx.Result, rng *hx.Rng, thorough bool, replay string) error {
 
 	// ---- part B
 	cfgs := c03Configs(rng, thorough)
-	if os.Getenv("VERIF_C03_ONLY") == "targeted" {
+	if only != "" {
 		cfgs = nil
 	}
 	var tot c03Stats
@@ -1090,6 +1280,36 @@ func runC03(r *hx.Result, rng *hx.Rng, thorough bool, replay string) error {
 			r.Sample(map[string]interface{}{"workload": cfg.String(), "storage_ops": len(run.Log), "crash_points": s.Points, "images": s.Images, "opened": s.Opened, "acked": len(run.Acked)})
 		}
 	}
+	// ---- scheduled concurrent committers (interleaving controlled through the storage layer)
+	schedStart := time.Now()
+	scfgs := c03SchedConfigs(rng.Fork(), thorough)
+	if os.Getenv("VERIF_C03_ONLY") == "targeted" {
+		scfgs = nil
+	}
+	for _, cfg := range scfgs {
+		r.NextCase()
+		r.Count("workload.sched")
+		run, err := c03Workload(r, rng.Fork(), cfg, nil, nil, nil, cfg.Name)
+		if err != nil {
+			return err
+		}
+		if len(run.Notes) > 0 {
+			r.Notes = append(r.Notes, cfg.Name+": "+strings.Join(run.Notes, "; "))
+		}
+		r.CountN("workload.storage-ops", len(run.Log))
+		dl := deadline
+		if thorough {
+			dl = time.Now().Add(6 * time.Second) // only the (sampled) fully enumerated ones use it
+		}
+		s := c03Enumerate(r, rng.Fork(), run, false, 0, 1, 0, dl, nil, newC03Trace(cfg))
+		r.CountN("sched.images-opened", s.Opened)
+		tot.Points += s.Points
+		tot.Images += s.Images
+		tot.Opened += s.Opened
+		tot.Dups += s.Dups
+	}
+	r.Extra["sched_workloads"] = len(scfgs)
+	r.Extra["sched_seconds"] = time.Since(schedStart).Seconds()
 	// ---- double crash: a workload started from a recovered image (recovered after a crash + one fresh commit), crashed again
 	nD := 0
 	for _, p := range picked {
@@ -1124,6 +1344,9 @@ func runC03(r *hx.Result, rng *hx.Rng, thorough bool, replay string) error {
 		tot.Images += s.Images
 		tot.Opened += s.Opened
 		tot.Dups += s.Dups
+	}
+	if only == "sched" {
+		return nil
 	}
 	// ---- self-test: the oracle must notice a missing fsync
 	if err := c03SelfTest(r); err != nil {
